@@ -30,6 +30,7 @@ type c20Cmd struct {
 	Targets []int    `json:"targets,omitempty"` // indices into the fake targets; -1 = dead port
 	Pct     int      `json:"pct,omitempty"`
 	Extra   []string `json:"extra,omitempty"` // extra flags (validation cases)
+	TLS     bool     `json:"tls,omitempty"`   // deploy --tls (automatic; nothing is fetched until a handshake)
 }
 
 type c20BinPlan struct {
@@ -41,6 +42,7 @@ type c20MSvc struct {
 	targets         []int
 	rollout         bool
 	state           string
+	tls             bool
 }
 
 func c20NormPrefixes(ps []string) []string {
@@ -106,7 +108,7 @@ func c20Apply(m map[string]*c20MSvc, c c20Cmd) (fail bool) {
 			s = &c20MSvc{state: "running"}
 			m[c.Svc] = s
 		}
-		s.hosts, s.prefixes, s.targets = c.Hosts, c.Prefix, c.Targets
+		s.hosts, s.prefixes, s.targets, s.tls = c.Hosts, c.Prefix, c.Targets, c.TLS
 	case "remove":
 		if s == nil {
 			return true
@@ -162,6 +164,14 @@ func c20BinGen(t *rapid.T) c20BinPlan {
 			c.Targets = []int{rapid.IntRange(-1, 2).Draw(t, "target")}
 			if rapid.IntRange(0, 3).Draw(t, "two") == 0 {
 				c.Targets = append(c.Targets, rapid.IntRange(0, 2).Draw(t, "target2"))
+			}
+			rootPath := len(c.Prefix) == 0 || c.Prefix[0] == "/"
+			noWildcard := true
+			for _, h := range c.Hosts {
+				noWildcard = noWildcard && !strings.Contains(h, "*")
+			}
+			if len(c.Hosts) > 0 && rootPath && noWildcard && rapid.IntRange(0, 2).Draw(t, "tls") == 0 {
+				c.TLS = true
 			}
 			if rapid.IntRange(0, 7).Draw(t, "invalid") == 0 {
 				c.Extra = rapid.SampledFrom([][]string{{"--max-request-body", "10"}, {"--max-response-body", "10"}, {"--tls", "--path-prefix", "/only"}}).Draw(t, "extra")
@@ -257,6 +267,9 @@ func c20BinRun(t *testing.T, p c20BinPlan) (res vfResult) {
 			for _, pf := range c.Prefix {
 				args = append(args, "--path-prefix", pf)
 			}
+			if c.TLS {
+				args = append(args, "--tls")
+			}
 			args = append(args, c.Extra...)
 		case "remove", "pause", "stop", "resume":
 			args = []string{c.Op, c.Svc}
@@ -318,7 +331,11 @@ func c20BinRun(t *testing.T, p c20BinPlan) (res vfResult) {
 				for _, tg := range s.targets {
 					ts = append(ts, tname(tg))
 				}
-				want[n] = []string{host, strings.Join(c20NormPrefixes(s.prefixes), ","), strings.Join(ts, ","), s.state, "no"}
+				tlsCol := "no"
+				if c20EffTLS(m, s) {
+					tlsCol = "yes"
+				}
+				want[n] = []string{host, strings.Join(c20NormPrefixes(s.prefixes), ","), strings.Join(ts, ","), s.state, tlsCol}
 			}
 			if fmt.Sprint(c20Sorted(rows)) != fmt.Sprint(c20Sorted(want)) {
 				res.failf("list-rows", "%s: printed rows %v, model %v; raw=%q", desc, c20Sorted(rows), c20Sorted(want), so.String())
@@ -331,6 +348,66 @@ func c20BinRun(t *testing.T, p c20BinPlan) (res vfResult) {
 		res.label("command-with-error-outcome")
 	}
 	return res
+}
+
+// c20EffTLS: a service on a sub-path shows the TLS setting of the service on the root path of its (first) host.
+func c20EffTLS(m map[string]*c20MSvc, s *c20MSvc) bool {
+	for _, p := range c20NormPrefixes(s.prefixes) {
+		if p == "/" {
+			return s.tls
+		}
+	}
+	host := ""
+	if len(s.hosts) > 0 {
+		host = s.hosts[0]
+	}
+	find := func(h string) *c20MSvc {
+		for _, o := range m {
+			oh := o.hosts
+			if len(oh) == 0 {
+				oh = []string{""}
+			}
+			for _, x := range oh {
+				if x != h {
+					continue
+				}
+				for _, p := range c20NormPrefixes(o.prefixes) {
+					if p == "/" {
+						return o
+					}
+				}
+			}
+		}
+		return nil // nobody at this host level serves its root
+	}
+	level := func(h string) bool {
+		for _, o := range m {
+			oh := o.hosts
+			if len(oh) == 0 {
+				oh = []string{""}
+			}
+			for _, x := range oh {
+				if x == h {
+					return true
+				}
+			}
+		}
+		return false
+	}
+	cands := []string{host}
+	if i := strings.Index(host, "."); i > 0 {
+		cands = append(cands, "*"+host[i:])
+	}
+	cands = append(cands, "")
+	for _, h := range cands {
+		if level(h) {
+			if r := find(h); r != nil {
+				return r.tls
+			}
+			return false
+		}
+	}
+	return false
 }
 
 func c20Sorted(m map[string][]string) []string {
